@@ -67,10 +67,11 @@ pub(crate) struct Ghost {
     pub enc_fcnt: [u8; 4],
     pub macs_calls: u8,
 }
-pub(crate) static mut G: Ghost = Ghost {
+pub(crate) const G0: Ghost = Ghost {
     new_calls: 0, mic_calls: 0, mic_b0: [0; 16], mic_data_len: 0, mic_ret: [0; 4], enc_calls: 0, enc_ok: true,
     enc_dir: 0, enc_addr: [0; 4], enc_fcnt: [0; 4], macs_calls: 0,
 };
+pub(crate) static mut G: Ghost = G0;
 
 /// A-crypto stub: `DefaultCrypto::new` (AES key expansion) -- the object carries no information the
 /// stubs below use.
@@ -115,9 +116,10 @@ pub(crate) fn stub_handle_downlink_macs(
     unsafe { G.macs_calls = G.macs_calls.wrapping_add(1); }
 }
 
-pub(crate) fn any_session() -> Session {
+pub(crate) fn any_session() -> Session { any_session_with(any_uplink()) }
+pub(crate) fn any_session_with(uplink: crate::mac::uplink::Uplink) -> Session {
     Session {
-        uplink: any_uplink(),
+        uplink,
         confirmed: tape::boolean(),
         // keys only reach the (stubbed) AES key schedule: one symbolic byte each keeps them distinguishable
         nwkskey: NwkSKey::from([tape::u8(); 16]),
@@ -324,3 +326,269 @@ fn c05_handle_rx_class_a_t() { handle_rx_contract::<30>(false, true) }
 #[kani::stub(Session::handle_downlink_macs, stub_handle_downlink_macs)]
 #[kani::unwind(34)]
 fn c05_handle_rx_class_c_t() { handle_rx_contract::<30>(true, true) }
+
+// ================================================================================================
+// next_lower_datarate, rx2_complete   (C06 counter step, C12 ADR back-off)
+// ================================================================================================
+/// max { x < cur : region defines x }
+pub(crate) fn spec_next_lower(region: &region::Configuration, cur: u8) -> Option<u8> {
+    let mut best: Option<u8> = None;
+    let mut x: u8 = 0;
+    while x < 16 {
+        if x < cur && dr_defined(region, x) { best = Some(x); }
+        x += 1;
+    }
+    best
+}
+
+// @verif props=C12,C04 obligation=next_lower_datarate.contract label=proved-complete tier=quick
+#[kani::proof]
+#[kani::unwind(18)]
+fn c12_next_lower_datarate() {
+    tape::init();
+    let region = any_fresh_region();
+    let cur = tape::u8() & 0x0f;
+    // every DR value a configuration can hold (DR15 included): never panics
+    let r = next_lower_datarate(&region, DR::from(cur));
+    assert!(r.map(|d| d as u8) == spec_next_lower(&region, cur), "next_lower_datarate == largest region-defined rate below the current one");
+    kani::cover!(r.is_some(), "verif-reached: lower rate exists");
+    kani::cover!(r.is_none(), "verif-reached: no lower rate");
+}
+
+// @verif props=C06,C12,C04 obligation=Session::rx2_complete.contract label=proved-complete tier=quick
+#[kani::proof]
+#[kani::unwind(18)]
+fn c06_rx2_complete() {
+    tape::init();
+    let region = any_fresh_region();
+    let mut cfg = any_mac_configuration(&region);
+    let mut s = any_session();
+    let old = s.clone();
+    let old_cfg = cfg;
+    let resp = s.rx2_complete(&mut cfg, &region);
+    if old.fcnt_up == u32::MAX {
+        assert!(matches!(resp, Response::SessionExpired), "C06 counter space exhausted => SessionExpired");
+        assert!(session_eq(&s, &old) && cfg == old_cfg, "C06 an expired session changes nothing (no wrap)");
+        kani::cover!(true, "verif-reached: expired");
+        return;
+    }
+    assert!(s.fcnt_up == old.fcnt_up + 1, "C06 end of the receive procedure advances FCntUp by exactly one");
+    assert!(s.fcnt_down == old.fcnt_down && uplink_eq(&s.uplink, &old.uplink) && s.confirmed == old.confirmed && s.devaddr == old.devaddr, "rx2_complete frame");
+    if old.confirmed { assert!(matches!(resp, Response::NoAck), "confirmed uplink without downlink => NoAck"); }
+    else { assert!(matches!(resp, Response::RxComplete), "unconfirmed uplink without downlink => RxComplete"); }
+    let mut exp_cfg = old_cfg;
+    if old_cfg.adr_enabled {
+        let cnt = if old.adr_ack_cnt == u32::MAX { u32::MAX } else { old.adr_ack_cnt + 1 };
+        assert!(s.adr_ack_cnt == cnt, "C12 ADR count +1 (saturating) per uplink without accepted downlink");
+        // back-off after 96, 128, ... uplinks (ADR_ACK_LIMIT 64 + k * ADR_ACK_DELAY 32, k >= 1)
+        if cnt >= 96 && (cnt - 64) % 32 == 0 {
+            if let Some(d) = spec_next_lower(&region, old_cfg.data_rate as u8) { exp_cfg.data_rate = DR::from(d); }
+        }
+    } else {
+        assert!(s.adr_ack_cnt == old.adr_ack_cnt, "C12 ADR disabled: count untouched");
+    }
+    assert!(cfg == exp_cfg, "C12 data rate steps down exactly at 96,128,.. uplinks while ADR is on, nothing else changes");
+    kani::cover!(cfg.data_rate != old_cfg.data_rate, "verif-reached: back-off step");
+    kani::cover!(cfg.data_rate == old_cfg.data_rate, "verif-reached: no step");
+}
+
+// ================================================================================================
+// Session::prepare_buffer   (C06 counter on the wire / in MIC+encryption, C12 header bits, C08 sticky answers)
+// real DataFrame::build_into and securityhelpers run; only AES/CMAC are the recording stubs.
+// ================================================================================================
+pub(crate) const MAX_APP: usize = 2;
+
+fn prepare_buffer_contract(fport_zero: bool, np_fixed: usize, dlen_fixed: usize) {
+    tape::init();
+    let region = region::Configuration::new(region::Region::EU868);
+    let cfg = any_mac_configuration(&region);
+    let mut s = any_session_with(any_uplink_len(np_fixed));
+    let old = s.clone();
+    let dlen = if fport_zero { 0 } else { dlen_fixed };
+    let data: [u8; MAX_APP] = tape::arr();
+    let fport = if fport_zero { 0 } else { let p = tape::u8(); kani::assume(p != 0); p };
+    let confirmed = tape::boolean();
+    let mut tx: RadioBuffer<64> = RadioBuffer::new();
+    let sd = SendData { data: &data[..dlen], fport, confirmed };
+
+    let fcnt = s.prepare_buffer::<64>(&sd, &mut tx, &cfg, &region);
+
+    let g = unsafe { &*(&raw const G) };
+    let out = tx.as_ref_for_read();
+    let pend = uplink_pending(&old.uplink);
+    let np = pend.len();
+    let fopts_len = if fport_zero { 0 } else { np };
+    let frm_len = if fport_zero { np } else { dlen };
+    assert!(fcnt == old.fcnt_up && s.fcnt_up == old.fcnt_up, "C06 the frame is built with the current FCntUp, which is not advanced here");
+    assert!(out.len() == 8 + fopts_len + 1 + frm_len + 4, "uplink length = MHDR FHDR FPort FRMPayload MIC");
+    assert!(out[0] == (if confirmed { 0x80 } else { 0x40 }), "C12 message type as requested by the application");
+    assert!(out[1..5] == *old.devaddr.as_wire_bytes(), "C12 device address of the session");
+    let fctrl = out[5];
+    assert!((fctrl & 0x80 != 0) == cfg.adr_enabled, "C12 ADR bit iff ADR enabled");
+    let want_req = cfg.adr_enabled && old.adr_ack_cnt >= 64 && spec_next_lower(&region, cfg.data_rate as u8).is_some();
+    assert!((fctrl & 0x40 != 0) == want_req, "C12 ADRACKReq iff ADR enabled, >= 64 uplinks without downlink, and a lower rate exists");
+    assert!((fctrl & 0x20 != 0) == uplink_confirmed(&old.uplink), "C12 ACK bit iff an accepted confirmed downlink is owed an acknowledgement");
+    assert!(!uplink_confirmed(&s.uplink), "C12 the ACK is sent once");
+    assert!(fctrl & 0x10 == 0 && (fctrl & 0x0f) as usize == fopts_len, "FCtrl: no class B bit, FOptsLen");
+    assert!(out[6] == old.fcnt_up as u8 && out[7] == (old.fcnt_up >> 8) as u8, "C06 low half of FCntUp on the wire");
+    let mut i = 0;
+    while i < 15 { if i < fopts_len { assert!(out[8 + i] == pend[i], "C08 queued MAC answers piggybacked in FOpts"); } i += 1; }
+    assert!(out[8 + fopts_len] == fport, "FPort");
+    // crypto saw the full 32-bit counter, uplink direction, session address
+    let nb = old.fcnt_up.to_le_bytes();
+    let b0 = g.mic_b0;
+    assert!(g.mic_calls == 1 && b0[0] == 0x49 && b0[5] == 0 && b0[6..10] == *old.devaddr.as_wire_bytes() && b0[10..14] == nb
+        && b0[15] as usize == out.len() - 4 && g.mic_data_len == out.len() - 4, "C06 MIC over B0|msg with the full 32-bit FCntUp, direction 0");
+    assert!(out[out.len() - 4..] == g.mic_ret, "MIC appended");
+    if frm_len > 0 {
+        assert!(g.enc_ok && g.enc_calls as usize == (frm_len + 15) / 16 && g.enc_dir == 0 && g.enc_addr == *old.devaddr.as_wire_bytes() && g.enc_fcnt == nb,
+            "C06 payload encrypted with the full 32-bit FCntUp");
+    } else {
+        assert!(g.enc_calls == 0, "no key stream without FRMPayload");
+    }
+    assert!(s.confirmed == confirmed, "confirmed flag remembered for the receive procedure");
+    // C08: after the frame is built the queue is cleaned keeping the sticky answers (retain_acks = true), once
+    assert!(unsafe { CLEAR_CALLS } == 1 && unsafe { CLEAR_RETAIN }, "C08 after an uplink the queue is reduced to the sticky answers (clear_mac_commands(true))");
+    assert!(uplink_pending(&s.uplink).len() == np, "queue otherwise untouched by prepare_buffer");
+    assert!(s.fcnt_down == old.fcnt_down && s.adr_ack_cnt == old.adr_ack_cnt && s.devaddr == old.devaddr, "prepare_buffer frame");
+    kani::cover!(true, "verif-reached: end of harness");
+}
+
+// One harness per concrete (queued bytes, payload bytes) pair: concrete lengths keep every slice operation at a
+// fixed offset (a symbolic length cost 6.4 M SAT variables / 5 min in the same harness; measured).
+// @verif props=C06,C12,C08,C04 obligation=Session::prepare_buffer.contract[FPort>0,queued=0,app=0] label=bounded(lengths) tier=thorough bound="exactly 0 queued MAC-answer bytes and 0 application bytes (content symbolic), region EU868; any other session state"
+#[kani::proof]
+#[kani::stub(lorawan::default_crypto::DefaultCrypto::new, stub_crypto_new)]
+#[kani::stub(<lorawan::default_crypto::DefaultCrypto as lorawan::keys::Crypto>::calculate_mic, stub_calculate_mic)]
+#[kani::stub(<lorawan::default_crypto::DefaultCrypto as lorawan::keys::Crypto>::encrypt_block, stub_encrypt_block)]
+#[kani::stub(crate::mac::uplink::Uplink::clear_mac_commands, stub_clear_record)]
+#[kani::unwind(20)]
+fn c12_prepare_buffer_data_q0_a0() { prepare_buffer_contract(false, 0, 0) }
+// @verif props=C06,C12,C08,C04 obligation=Session::prepare_buffer.contract[FPort>0,queued=0,app=1] label=bounded(lengths) tier=quick bound="exactly 0 queued MAC-answer bytes and 1 application bytes (content symbolic), region EU868; any other session state"
+#[kani::proof]
+#[kani::stub(lorawan::default_crypto::DefaultCrypto::new, stub_crypto_new)]
+#[kani::stub(<lorawan::default_crypto::DefaultCrypto as lorawan::keys::Crypto>::calculate_mic, stub_calculate_mic)]
+#[kani::stub(<lorawan::default_crypto::DefaultCrypto as lorawan::keys::Crypto>::encrypt_block, stub_encrypt_block)]
+#[kani::stub(crate::mac::uplink::Uplink::clear_mac_commands, stub_clear_record)]
+#[kani::unwind(20)]
+fn c12_prepare_buffer_data_q0_a1() { prepare_buffer_contract(false, 0, 1) }
+// @verif props=C06,C12,C08,C04 obligation=Session::prepare_buffer.contract[FPort>0,queued=0,app=2] label=bounded(lengths) tier=thorough bound="exactly 0 queued MAC-answer bytes and 2 application bytes (content symbolic), region EU868; any other session state"
+#[kani::proof]
+#[kani::stub(lorawan::default_crypto::DefaultCrypto::new, stub_crypto_new)]
+#[kani::stub(<lorawan::default_crypto::DefaultCrypto as lorawan::keys::Crypto>::calculate_mic, stub_calculate_mic)]
+#[kani::stub(<lorawan::default_crypto::DefaultCrypto as lorawan::keys::Crypto>::encrypt_block, stub_encrypt_block)]
+#[kani::stub(crate::mac::uplink::Uplink::clear_mac_commands, stub_clear_record)]
+#[kani::unwind(20)]
+fn c12_prepare_buffer_data_q0_a2() { prepare_buffer_contract(false, 0, 2) }
+// @verif props=C06,C12,C08,C04 obligation=Session::prepare_buffer.contract[FPort>0,queued=1,app=0] label=bounded(lengths) tier=thorough bound="exactly 1 queued MAC-answer bytes and 0 application bytes (content symbolic), region EU868; any other session state"
+#[kani::proof]
+#[kani::stub(lorawan::default_crypto::DefaultCrypto::new, stub_crypto_new)]
+#[kani::stub(<lorawan::default_crypto::DefaultCrypto as lorawan::keys::Crypto>::calculate_mic, stub_calculate_mic)]
+#[kani::stub(<lorawan::default_crypto::DefaultCrypto as lorawan::keys::Crypto>::encrypt_block, stub_encrypt_block)]
+#[kani::stub(crate::mac::uplink::Uplink::clear_mac_commands, stub_clear_record)]
+#[kani::unwind(20)]
+fn c12_prepare_buffer_data_q1_a0() { prepare_buffer_contract(false, 1, 0) }
+// @verif props=C06,C12,C08,C04 obligation=Session::prepare_buffer.contract[FPort>0,queued=1,app=1] label=bounded(lengths) tier=quick bound="exactly 1 queued MAC-answer bytes and 1 application bytes (content symbolic), region EU868; any other session state"
+#[kani::proof]
+#[kani::stub(lorawan::default_crypto::DefaultCrypto::new, stub_crypto_new)]
+#[kani::stub(<lorawan::default_crypto::DefaultCrypto as lorawan::keys::Crypto>::calculate_mic, stub_calculate_mic)]
+#[kani::stub(<lorawan::default_crypto::DefaultCrypto as lorawan::keys::Crypto>::encrypt_block, stub_encrypt_block)]
+#[kani::stub(crate::mac::uplink::Uplink::clear_mac_commands, stub_clear_record)]
+#[kani::unwind(20)]
+fn c12_prepare_buffer_data_q1_a1() { prepare_buffer_contract(false, 1, 1) }
+// @verif props=C06,C12,C08,C04 obligation=Session::prepare_buffer.contract[FPort>0,queued=1,app=2] label=bounded(lengths) tier=thorough bound="exactly 1 queued MAC-answer bytes and 2 application bytes (content symbolic), region EU868; any other session state"
+#[kani::proof]
+#[kani::stub(lorawan::default_crypto::DefaultCrypto::new, stub_crypto_new)]
+#[kani::stub(<lorawan::default_crypto::DefaultCrypto as lorawan::keys::Crypto>::calculate_mic, stub_calculate_mic)]
+#[kani::stub(<lorawan::default_crypto::DefaultCrypto as lorawan::keys::Crypto>::encrypt_block, stub_encrypt_block)]
+#[kani::stub(crate::mac::uplink::Uplink::clear_mac_commands, stub_clear_record)]
+#[kani::unwind(20)]
+fn c12_prepare_buffer_data_q1_a2() { prepare_buffer_contract(false, 1, 2) }
+// @verif props=C06,C12,C08,C04 obligation=Session::prepare_buffer.contract[FPort>0,queued=2,app=0] label=bounded(lengths) tier=thorough bound="exactly 2 queued MAC-answer bytes and 0 application bytes (content symbolic), region EU868; any other session state"
+#[kani::proof]
+#[kani::stub(lorawan::default_crypto::DefaultCrypto::new, stub_crypto_new)]
+#[kani::stub(<lorawan::default_crypto::DefaultCrypto as lorawan::keys::Crypto>::calculate_mic, stub_calculate_mic)]
+#[kani::stub(<lorawan::default_crypto::DefaultCrypto as lorawan::keys::Crypto>::encrypt_block, stub_encrypt_block)]
+#[kani::stub(crate::mac::uplink::Uplink::clear_mac_commands, stub_clear_record)]
+#[kani::unwind(20)]
+fn c12_prepare_buffer_data_q2_a0() { prepare_buffer_contract(false, 2, 0) }
+// @verif props=C06,C12,C08,C04 obligation=Session::prepare_buffer.contract[FPort>0,queued=2,app=1] label=bounded(lengths) tier=quick bound="exactly 2 queued MAC-answer bytes and 1 application bytes (content symbolic), region EU868; any other session state"
+#[kani::proof]
+#[kani::stub(lorawan::default_crypto::DefaultCrypto::new, stub_crypto_new)]
+#[kani::stub(<lorawan::default_crypto::DefaultCrypto as lorawan::keys::Crypto>::calculate_mic, stub_calculate_mic)]
+#[kani::stub(<lorawan::default_crypto::DefaultCrypto as lorawan::keys::Crypto>::encrypt_block, stub_encrypt_block)]
+#[kani::stub(crate::mac::uplink::Uplink::clear_mac_commands, stub_clear_record)]
+#[kani::unwind(20)]
+fn c12_prepare_buffer_data_q2_a1() { prepare_buffer_contract(false, 2, 1) }
+// @verif props=C06,C12,C08,C04 obligation=Session::prepare_buffer.contract[FPort>0,queued=2,app=2] label=bounded(lengths) tier=thorough bound="exactly 2 queued MAC-answer bytes and 2 application bytes (content symbolic), region EU868; any other session state"
+#[kani::proof]
+#[kani::stub(lorawan::default_crypto::DefaultCrypto::new, stub_crypto_new)]
+#[kani::stub(<lorawan::default_crypto::DefaultCrypto as lorawan::keys::Crypto>::calculate_mic, stub_calculate_mic)]
+#[kani::stub(<lorawan::default_crypto::DefaultCrypto as lorawan::keys::Crypto>::encrypt_block, stub_encrypt_block)]
+#[kani::stub(crate::mac::uplink::Uplink::clear_mac_commands, stub_clear_record)]
+#[kani::unwind(20)]
+fn c12_prepare_buffer_data_q2_a2() { prepare_buffer_contract(false, 2, 2) }
+// @verif props=C06,C12,C08,C04 obligation=Session::prepare_buffer.contract[FPort>0,queued=15,app=0] label=bounded(lengths) tier=thorough bound="exactly 15 queued MAC-answer bytes and 0 application bytes (content symbolic), region EU868; any other session state"
+#[kani::proof]
+#[kani::stub(lorawan::default_crypto::DefaultCrypto::new, stub_crypto_new)]
+#[kani::stub(<lorawan::default_crypto::DefaultCrypto as lorawan::keys::Crypto>::calculate_mic, stub_calculate_mic)]
+#[kani::stub(<lorawan::default_crypto::DefaultCrypto as lorawan::keys::Crypto>::encrypt_block, stub_encrypt_block)]
+#[kani::stub(crate::mac::uplink::Uplink::clear_mac_commands, stub_clear_record)]
+#[kani::unwind(20)]
+fn c12_prepare_buffer_data_q15_a0() { prepare_buffer_contract(false, 15, 0) }
+// @verif props=C06,C12,C08,C04 obligation=Session::prepare_buffer.contract[FPort>0,queued=15,app=1] label=bounded(lengths) tier=thorough bound="exactly 15 queued MAC-answer bytes and 1 application bytes (content symbolic), region EU868; any other session state"
+#[kani::proof]
+#[kani::stub(lorawan::default_crypto::DefaultCrypto::new, stub_crypto_new)]
+#[kani::stub(<lorawan::default_crypto::DefaultCrypto as lorawan::keys::Crypto>::calculate_mic, stub_calculate_mic)]
+#[kani::stub(<lorawan::default_crypto::DefaultCrypto as lorawan::keys::Crypto>::encrypt_block, stub_encrypt_block)]
+#[kani::stub(crate::mac::uplink::Uplink::clear_mac_commands, stub_clear_record)]
+#[kani::unwind(20)]
+fn c12_prepare_buffer_data_q15_a1() { prepare_buffer_contract(false, 15, 1) }
+// @verif props=C06,C12,C08,C04 obligation=Session::prepare_buffer.contract[FPort>0,queued=15,app=2] label=bounded(lengths) tier=quick bound="exactly 15 queued MAC-answer bytes and 2 application bytes (content symbolic), region EU868; any other session state"
+#[kani::proof]
+#[kani::stub(lorawan::default_crypto::DefaultCrypto::new, stub_crypto_new)]
+#[kani::stub(<lorawan::default_crypto::DefaultCrypto as lorawan::keys::Crypto>::calculate_mic, stub_calculate_mic)]
+#[kani::stub(<lorawan::default_crypto::DefaultCrypto as lorawan::keys::Crypto>::encrypt_block, stub_encrypt_block)]
+#[kani::stub(crate::mac::uplink::Uplink::clear_mac_commands, stub_clear_record)]
+#[kani::unwind(20)]
+fn c12_prepare_buffer_data_q15_a2() { prepare_buffer_contract(false, 15, 2) }
+// @verif props=C06,C12,C08,C04 obligation=Session::prepare_buffer.contract[FPort0,queued=0] label=bounded(lengths) tier=quick bound="exactly 0 queued MAC-answer bytes sent as FRMPayload on port 0 (content symbolic), region EU868"
+#[kani::proof]
+#[kani::stub(lorawan::default_crypto::DefaultCrypto::new, stub_crypto_new)]
+#[kani::stub(<lorawan::default_crypto::DefaultCrypto as lorawan::keys::Crypto>::calculate_mic, stub_calculate_mic)]
+#[kani::stub(<lorawan::default_crypto::DefaultCrypto as lorawan::keys::Crypto>::encrypt_block, stub_encrypt_block)]
+#[kani::stub(crate::mac::uplink::Uplink::clear_mac_commands, stub_clear_record)]
+#[kani::unwind(20)]
+fn c12_prepare_buffer_port0_q0() { prepare_buffer_contract(true, 0, 0) }
+// @verif props=C06,C12,C08,C04 obligation=Session::prepare_buffer.contract[FPort0,queued=1] label=bounded(lengths) tier=thorough bound="exactly 1 queued MAC-answer bytes sent as FRMPayload on port 0 (content symbolic), region EU868"
+#[kani::proof]
+#[kani::stub(lorawan::default_crypto::DefaultCrypto::new, stub_crypto_new)]
+#[kani::stub(<lorawan::default_crypto::DefaultCrypto as lorawan::keys::Crypto>::calculate_mic, stub_calculate_mic)]
+#[kani::stub(<lorawan::default_crypto::DefaultCrypto as lorawan::keys::Crypto>::encrypt_block, stub_encrypt_block)]
+#[kani::stub(crate::mac::uplink::Uplink::clear_mac_commands, stub_clear_record)]
+#[kani::unwind(20)]
+fn c12_prepare_buffer_port0_q1() { prepare_buffer_contract(true, 1, 0) }
+// @verif props=C06,C12,C08,C04 obligation=Session::prepare_buffer.contract[FPort0,queued=2] label=bounded(lengths) tier=quick bound="exactly 2 queued MAC-answer bytes sent as FRMPayload on port 0 (content symbolic), region EU868"
+#[kani::proof]
+#[kani::stub(lorawan::default_crypto::DefaultCrypto::new, stub_crypto_new)]
+#[kani::stub(<lorawan::default_crypto::DefaultCrypto as lorawan::keys::Crypto>::calculate_mic, stub_calculate_mic)]
+#[kani::stub(<lorawan::default_crypto::DefaultCrypto as lorawan::keys::Crypto>::encrypt_block, stub_encrypt_block)]
+#[kani::stub(crate::mac::uplink::Uplink::clear_mac_commands, stub_clear_record)]
+#[kani::unwind(20)]
+fn c12_prepare_buffer_port0_q2() { prepare_buffer_contract(true, 2, 0) }
+// @verif props=C06,C12,C08,C04 obligation=Session::prepare_buffer.contract[FPort0,queued=8] label=bounded(lengths) tier=thorough bound="exactly 8 queued MAC-answer bytes sent as FRMPayload on port 0 (content symbolic), region EU868"
+#[kani::proof]
+#[kani::stub(lorawan::default_crypto::DefaultCrypto::new, stub_crypto_new)]
+#[kani::stub(<lorawan::default_crypto::DefaultCrypto as lorawan::keys::Crypto>::calculate_mic, stub_calculate_mic)]
+#[kani::stub(<lorawan::default_crypto::DefaultCrypto as lorawan::keys::Crypto>::encrypt_block, stub_encrypt_block)]
+#[kani::stub(crate::mac::uplink::Uplink::clear_mac_commands, stub_clear_record)]
+#[kani::unwind(20)]
+fn c12_prepare_buffer_port0_q8() { prepare_buffer_contract(true, 8, 0) }
+// @verif props=C06,C12,C08,C04 obligation=Session::prepare_buffer.contract[FPort0,queued=15] label=bounded(lengths) tier=quick bound="exactly 15 queued MAC-answer bytes sent as FRMPayload on port 0 (content symbolic), region EU868"
+#[kani::proof]
+#[kani::stub(lorawan::default_crypto::DefaultCrypto::new, stub_crypto_new)]
+#[kani::stub(<lorawan::default_crypto::DefaultCrypto as lorawan::keys::Crypto>::calculate_mic, stub_calculate_mic)]
+#[kani::stub(<lorawan::default_crypto::DefaultCrypto as lorawan::keys::Crypto>::encrypt_block, stub_encrypt_block)]
+#[kani::stub(crate::mac::uplink::Uplink::clear_mac_commands, stub_clear_record)]
+#[kani::unwind(20)]
+fn c12_prepare_buffer_port0_q15() { prepare_buffer_contract(true, 15, 0) }
